@@ -259,3 +259,5 @@ PROPS["C12"]["e2"] += [E("tree_walker", "p_walker", "lemma_tree_walker"), E("mai
 PROPS["C14"]["e2"] += [E("tree_walker", "p_walker", "lemma_tree_walker")]
 PROPS["C20"]["e2"] += [E("driver_copy", "p_drivers", "lemma_driver_copy")]
 NOT_APPLICABLE["C09"] = "in progress: ordering/kill-safety of the backup rename is checked under C03/C04 lemmas; the name-recognition logic (string/regex) is being encoded"
+
+PROPS["C11"]["e2"] += [E("copy_file", "p_copy", "lemma_copy_file")]
